@@ -175,6 +175,11 @@ def gen_cases(ctx):
                 dim = rng.choice([1, 2, 3])
                 params = {"alpha": rng.choice([0.05, 0.2]), "bootstrap_samples": 10, "count_ubound": rng.choice([3, 8])}
                 data = gen_history(rng, rng.randint(5, 8), dim, 12, 32, style, 0.45)
+                if rng.random() < 0.4:
+                    # a non-default minimum cell size on features whose range makes it bite (int(clb * range) >= 1)
+                    params["clb"] = rng.choice([0.05, 0.1])
+                    data = [[[float(v) * 40.0 for v in r] for r in b] for b in data]
+                    bump("style", "clb")
             else:
                 dim = rng.choice([1, 2, 3])
                 kk = rng.choice([2, 3, 3, 5])
@@ -304,7 +309,7 @@ def run_kdq(case, data):
         c1 = [int(x) for x in (leaves["cell_count"] + leaves["count_diff"])]
         kl = log[-1] if log and log[-1] is not None else None
         # the partitioner on its own: same reference, same batch (ties the detector to the C08 subject)
-        part = KDQTreePartitioner(count_ubound=p["count_ubound"], cutpoint_proportion_lbound=CLB)
+        part = KDQTreePartitioner(count_ubound=p["count_ubound"], cutpoint_proportion_lbound=p.get("clb", CLB))
         part.build(np.array(data[ref_idx], dtype=float).reshape(-1, m))
         part.fill(np.array(b, dtype=float).reshape(-1, m), "a", reset=True)
         out["rows"].append({"ds": ds, "total": tot, "since": sin, "test_dist": priv(det, "_test_dist"),
@@ -518,7 +523,7 @@ def term_kdq(case, obs):
         if key not in seen:
             seen.add(key)
             tab.append(f"({G.fltlist(r['kl'][0])}, {G.fltlist(r['kl'][1])}, {G.flt(r['kl'][2])})")
-    head = f"{G.z(cub)} {G.flt(CLB)} {G.z(m)}"
+    head = f"{G.z(cub)} {G.flt(case['params'].get('clb', CLB))} {G.z(m)}"
     xs = G.lst([f"({c08.t_data(b)}, {G.flt(r['crit'])})" for b, r in zip(data[1:], o["rows"])])
     xs2 = G.lst([f"({c08.t_data(b)}, {G.flt(r['crit'])})" for b, r in zip(pdata[1:], p["rows"])])
     t = (f"chk_kdq_twin {head} {G.lst(tab)} {c08.t_data(data[0])} {c08.t_data(pdata[0])} {G.flt(o['crit0'])} {G.flt(p['crit0'])} "
@@ -574,7 +579,7 @@ def show_term(case, obs):
         m = len(data[0][0])
         tab = G.lst([f"({G.fltlist(r['kl'][0])}, {G.fltlist(r['kl'][1])}, {G.flt(r['kl'][2])})" for r in o["rows"] if r["kl"]])
         xs = G.lst([f"({c08.t_data(b)}, {G.flt(r['crit'])})" for b, r in zip(data[1:], o["rows"])])
-        return (f"show_kdq {G.z(case['params']['count_ubound'])} {G.flt(CLB)} {G.z(m)} {tab} {c08.t_data(data[0])} "
+        return (f"show_kdq {G.z(case['params']['count_ubound'])} {G.flt(case['params'].get('clb', CLB))} {G.z(m)} {tab} {c08.t_data(data[0])} "
                 f"{G.flt(o['crit0'])} {xs}")
     if case["det"] in ("HDDDM", "CDBD"):
         a = obs["o"]["rows"][0]
